@@ -94,7 +94,8 @@ func outLast() any                               { return nil }
 //@ grammar inv index_elem subscript: is[*ast.BinaryNode](self.value) && as[*ast.BinaryNode](self.value).Operator() == ast.BinarySubscript
 //@ grammar inv index_list subscripts: forall(func(i int) bool { return implies(0 <= i && i < len(self.indexs), is[*ast.BinaryNode](self.indexs[i]) && as[*ast.BinaryNode](self.indexs[i]).Operator() == ast.BinarySubscript) })
 // clauses attached to particular rules, by their shape in grammar.y
-//@ grammar rule any_level: INT_P :: ensures [C03 C15] level-is-the-literal: int64(r0.integer) == uninterp[int64]("ext_strconv_ParseInt_r0", pathDollar[1].str, 0, 64)
+//@ grammar rule any_level: INT_P :: ensures [C03 C15] level-is-the-literal: uninterp[error]("ext_strconv_ParseInt_r1", pathDollar[1].str, 0, 64) == nil && uninterp[int64]("ext_strconv_ParseInt_r0", pathDollar[1].str, 0, 64) < 4294967295 ==> int64(r0.integer) == uninterp[int64]("ext_strconv_ParseInt_r0", pathDollar[1].str, 0, 64) && len(as[*lexer](pathlex).errors) == old(len(as[*lexer](pathlex).errors))
+//@ grammar rule any_level: INT_P :: ensures [C03 C04 C15] level-out-of-range-rejected: uninterp[error]("ext_strconv_ParseInt_r1", pathDollar[1].str, 0, 64) != nil || uninterp[int64]("ext_strconv_ParseInt_r0", pathDollar[1].str, 0, 64) >= 4294967295 ==> len(as[*lexer](pathlex).errors) > old(len(as[*lexer](pathlex).errors))
 //@ grammar rule expr: '-' expr :: ensures [C03] minus: ncalls(ast.NewUnaryOrNumber) == 1 && callarg[ast.UnaryOperator](ast.NewUnaryOrNumber, "op") == ast.UnaryMinus && callarg[ast.Node](ast.NewUnaryOrNumber, "node") == pathDollar[2].value && r0.value == callret[ast.Node](ast.NewUnaryOrNumber, 0)
 //@ grammar rule expr: '+' expr :: ensures [C03] plus: ncalls(ast.NewUnaryOrNumber) == 1 && callarg[ast.UnaryOperator](ast.NewUnaryOrNumber, "op") == ast.UnaryPlus && callarg[ast.Node](ast.NewUnaryOrNumber, "node") == pathDollar[2].value && r0.value == callret[ast.Node](ast.NewUnaryOrNumber, 0)
 //@ grammar rule expr: expr '-' expr :: ensures [C03] operands-in-order: ncalls(ast.NewBinary) == 1 && callarg[ast.BinaryOperator](ast.NewBinary, "op") == ast.BinarySub && callarg[ast.Node](ast.NewBinary, "left") == pathDollar[1].value && callarg[ast.Node](ast.NewBinary, "right") == pathDollar[3].value
